@@ -155,7 +155,10 @@ Fixpoint c18_follow (disc : bool) (kept : N) (lib : N) (root : ref) (U : list bl
       | None => false
       | Some mon' =>
           let seen' := b :: seen in
+          (* a LIB MOVE: a finality announcement after which the last final block is another block than before
+             (the announcement of the starting LIB block itself, inclusive mode, moves nothing and purges nothing) *)
           let moved := existsb (fun e => match estep e with SIrr => true | _ => false end) (o_events o)
+                       && negb (ref_eqb (fm_last mon) (fm_last mon'))
                        && negb (disc && negb (fm_any mon)) in
           let lastnew' := last_new lastnew (o_events o) in
           (* head information = last block delivered as New *)
